@@ -5,9 +5,8 @@ use educe::Educe;
 use core::cmp::Ordering;
 #[derive(Educe)]
 #[educe(PartialEq)]
-#[educe(Eq)]
-pub enum T { B {  }, C, Unit(A<0>, #[educe(PartialEq(ignore(true)))] A<0>, A<0>) }
-pub fn values() -> Vec<T> { vec![T::B {  }, T::C, T::Unit(A(0), A(1), A(1)), T::Unit(A(0), A(0), A(1)), T::Unit(A(7), A(0), A(1)), T::Unit(A(7), A(1), A(7)), T::Unit(A(0), A(7), A(0)), T::Unit(A(7), A(1), A(0)), T::Unit(A(1), A(0), A(1)), T::Unit(A(7), A(7), A(1)), T::Unit(A(1), A(7), A(0)), T::Unit(A(0), A(1), A(7)), T::Unit(A(7), A(1), A(1)), T::Unit(A(0), A(0), A(7)), T::Unit(A(0), A(7), A(7)), T::Unit(A(1), A(1), A(7)), T::Unit(A(1), A(0), A(0)), T::Unit(A(0), A(1), A(0))] }
-pub fn show(x: &T) -> String { #[allow(unused_variables)] match x { T::B {  } => format!("B()"), T::C => format!("C()"), T::Unit(p0, p1, p2) => format!("Unit({},{},{})", sv(p0), sv(p1), sv(p2)) } }
-pub fn o_eq(a: &T, b: &T) -> bool { match (a, b) { (T::B {  }, T::B {  }) => true, (T::C, T::C) => true, (T::Unit(a0, a1, a2), T::Unit(b0, b1, b2)) => (a0 == b0) && (a2 == b2), _ => false } }
+pub enum T { Some {  }, C(A<0>, A<1>, #[educe(PartialEq(method = m_eq))] A<2>), V1 }
+pub fn values() -> Vec<T> { vec![T::Some {  }, T::C(A(7), A(0), A(7)), T::C(A(7), A(1), A(0)), T::C(A(7), A(1), A(1)), T::C(A(0), A(1), A(1)), T::C(A(7), A(0), A(1)), T::C(A(7), A(7), A(0)), T::C(A(7), A(7), A(7)), T::C(A(0), A(1), A(7)), T::C(A(0), A(0), A(1)), T::C(A(1), A(0), A(1)), T::C(A(0), A(7), A(1)), T::C(A(0), A(1), A(0)), T::C(A(7), A(7), A(1)), T::C(A(0), A(0), A(0)), T::C(A(1), A(7), A(7)), T::C(A(7), A(1), A(7)), T::V1] }
+pub fn show(x: &T) -> String { #[allow(unused_variables)] match x { T::Some {  } => format!("Some()"), T::C(p0, p1, p2) => format!("C({},{},{})", sv(p0), sv(p1), sv(p2)), T::V1 => format!("V1()") } }
+pub fn o_eq(a: &T, b: &T) -> bool { match (a, b) { (T::Some {  }, T::Some {  }) => true, (T::C(a0, a1, a2), T::C(b0, b1, b2)) => (a0 == b0) && (a1 == b1) && m_eq(a2, b2), (T::V1, T::V1) => true, _ => false } }
 pub fn run(out: &mut Out) { let vs = values(); for a in &vs { for b in &vs { let e = o_eq(a, b); out.check((a == b) == e, "eq_6", "eq", || format!("{} == {} expected {}", show(a), show(b), e)); out.check((a != b) == !e, "eq_6", "ne", || format!("{} != {} expected {}", show(a), show(b), !e)); } } }
